@@ -41,7 +41,9 @@ def gen_history(r, tier):
             # all negative, incl. no flag at all and all six (which is how a caller selects everything again)
             names = r.sample(FLAG_NAMES, r.choice([0, 1, 1, 2, 3, 6, 6]))
             val = r.random() < 0.6
-            ops.append({'kind': 'flags', 'given': {n: val for n in names}})
+            given = {n: val for n in names}
+            if len(names) >= 2 and r.random() < 0.1: given[names[0]] = not val     # mixed signs: rejected, nothing is set
+            ops.append({'kind': 'flags', 'given': given})
         elif c < 0.9:
             m = {}
             keysets = {'/metadata': [['kernelspec'], ['language_info', 'custom'], ['custom']],
@@ -187,6 +189,7 @@ def flags_shown(o):
     not mentioned get the opposite value; no flag at all leaves the configuration alone (None)"""
     g = o['given']
     if not g: return None
+    if len(set(g.values())) > 1: return None      # mixed signs: argparse.ArgumentError before anything is set
     default = not next(iter(g.values()))
     return [g.get(n, default) for n in FLAG_NAMES]
 def as_targets(o):
@@ -241,7 +244,8 @@ def coq_differ(c):
     if c[0] == 'DfIgnoreKeys': return '(DfIgnoreKeys %s [%s])' % (coq_differ(c[1]), '; '.join(coq_str(k) for k in c[2]))
     return c[0]
 def coq_op(o):
-    o = as_targets(o)
+    if o['kind'] == 'flags':     # the model computes the meaning of the flags itself (Sys/Flags.v: flags_op)
+        return '(flags_op %s)' % ' '.join({True: '(Some true)', False: '(Some false)', None: 'None'}[o['given'].get(n)] for n in FLAG_NAMES)
     k = o['kind']
     if k in ('diff', 'gdiff', 'merge', 'gmerge', 'noop'): return '(OpDiff [%s])' % '; '.join(coq_str(p) for p in PROBES[::2])
     if k == 'targets': return '(OpTargets %s)' % ' '.join('true' if x else 'false' for x in o['shown'])
@@ -260,7 +264,7 @@ def run_model_states(histories, states):
             if any('?' in json.dumps(c) for c in sts[k]['lookups']): continue
             rows.append('(%s, %s)' % ('[' + '; '.join(coq_op(o) for o in h[:k + 1]) + ']',
                                        '[' + '; '.join(coq_differ(c) for c in sts[k]['lookups']) + ']'))
-    src = ('From Coq Require Import List NArith String Bool.\nFrom NB Require Import Base.Json Diff.Codec Diff.GenericDiff Sys.Ignore Sys.History.\nImport ListNotations.\n'
+    src = ('From Coq Require Import List NArith String Bool.\nFrom NB Require Import Base.Json Diff.Codec Diff.GenericDiff Sys.Ignore Sys.History Sys.Flags.\nImport ListNotations.\n'
            'Definition probes : list pystr := [%s].\n' % '; '.join(coq_str(p) for p in PROBES) +
            'Definition ok (row : list op * list differ) : bool :=\n  let t := run_history (fst row) in\n'
            '  Nat.eqb (List.length (snd row)) (List.length probes) && forallb (fun pq => differ_eqb (lookup t (fst pq)) (snd pq)) (combine probes (snd row)).\n'
